@@ -59,11 +59,11 @@ func (im *importer) val(rv reflect.Value) Value {
 	rt := rv.Type()
 	if rt == bigIntRT {
 		if rv.CanAddr() {
-			return BigVal{smt.Int(rv.Addr().Interface().(*big.Int))}
+			return BigVal{T: smt.Int(rv.Addr().Interface().(*big.Int))}
 		}
 		c := reflect.New(rt).Elem()
 		c.Set(rv)
-		return BigVal{smt.Int(c.Addr().Interface().(*big.Int))}
+		return BigVal{T: smt.Int(c.Addr().Interface().(*big.Int))}
 	}
 	switch rv.Kind() {
 	case reflect.String:
